@@ -3,27 +3,37 @@ use serde_json::Value;
 
 pub mod c01;
 pub mod c02;
+pub mod c03;
+pub mod c04;
+pub mod c08;
 pub mod c10;
 pub mod c16;
 
 pub type RunFn = fn(&mut Ctx);
 
-pub fn find(id: &str) -> Option<(&'static str, RunFn)> {
-    Some(match id {
-        "C01" => ("C01", |c| c01::run(c)),
-        "C02" => ("C02", |c| c02::run(c)),
-        "C10" => ("C10", |c| c10::run(c)),
-        "C16" => ("C16", |c| c16::run(c)),
-        _ => return None,
-    })
+macro_rules! table {
+    ($( $id:literal => $run:path, $replay:path; )*) => {
+        pub fn find(id: &str) -> Option<(&'static str, RunFn)> {
+            match id {
+                $( $id => Some(($id, |c| $run(c))), )*
+                _ => None,
+            }
+        }
+        pub fn replay(id: &str, case: &Value) -> Result<(), String> {
+            match id {
+                $( $id => $replay(case), )*
+                _ => Err(format!("no replay for {}", id)),
+            }
+        }
+    };
 }
 
-pub fn replay(id: &str, case: &Value) -> Result<(), String> {
-    match id {
-        "C01" => c01::replay(case),
-        "C02" => c02::replay(case),
-        "C10" => c10::replay(case),
-        "C16" => c01::replay(case),
-        _ => Err(format!("no replay for {}", id)),
-    }
+table! {
+    "C01" => c01::run, c01::replay;
+    "C02" => c02::run, c02::replay;
+    "C03" => c03::run, c03::replay;
+    "C04" => c04::run, c04::replay;
+    "C08" => c08::run, c08::replay;
+    "C10" => c10::run, c10::replay;
+    "C16" => c16::run, c01::replay;
 }
